@@ -798,17 +798,6 @@ func c05BenignRace(site string) string {
 	case all(func(f string) bool { return f == "obiiter.RegisterAPipe" || f == "obiiter.UnregisterPipe" }):
 		// globalLockerCounter++ / --: a counter that is only printed by log.Debugln
 		return "pipe-registry-debug-counter"
-	case all(func(f string) bool {
-		for _, m := range []string{"Rebatch", "FilterEmpty", "DivideOn", "Distribute", "IFragments"} {
-			if f == "obiiter.IBioSequence."+m || strings.HasPrefix(f, "obiiter.IBioSequence."+m+".func") {
-				return true
-			}
-		}
-		return false
-	}):
-		// `iterator = iterator.SortBatches()` inside the goroutine vs `iterator.IsPaired()` in the caller: a one-word
-		// struct, and SortBatches has copied the paired flag before returning: both values give the same answer
-		return "captured-iterator-reassigned-to-its-sorted-self"
 	case all(func(f string) bool { return f == "obiformats.WriteSequencesToFile" || f == "obiformats.MakeOptions" }):
 		// `options = append(options, OptionCloseFile())` on the variadic slice shared by the writers obidistribute
 		// starts: every goroutine stores the same option in the same spare slot
